@@ -256,6 +256,21 @@ def split_I(e):
     return None
 
 
+def coef_core(e):
+    """e = c * core with c rational; core is None for a pure constant; rational factors are stripped from products"""
+    if e.op == "q": return e.args[0], None
+    if e.op == "neg":
+        c, k = coef_core(e.args[0]); return -c, k
+    if e.op == "mul":
+        ca, ka = coef_core(e.args[0]); cb, kb = coef_core(e.args[1])
+        if ka is None: return ca * cb, kb
+        if kb is None: return ca * cb, ka
+        return ca * cb, E("mul", ka, kb)
+    if e.op == "div" and e.args[1].op == "q":
+        c, k = coef_core(e.args[0]); return c / e.args[1].args[0], k
+    return Fraction(1), e
+
+
 def linear_terms(e):
     """decompose a real expression into [(coef Fraction, atom)] with atom in {None (constant), 'pi', var name, E (non-linear)}"""
     if e.op == "q": return [(e.args[0], None)]
@@ -264,12 +279,12 @@ def linear_terms(e):
     if e.op == "neg": return [(-c, a) for c, a in linear_terms(e.args[0])]
     if e.op == "add": return linear_terms(e.args[0]) + linear_terms(e.args[1])
     if e.op == "sub": return linear_terms(e.args[0]) + [(-c, a) for c, a in linear_terms(e.args[1])]
-    if e.op == "mul":
-        a, b = e.args
-        if a.op == "q": return [(a.args[0] * c, t) for c, t in linear_terms(b)]
-        if b.op == "q": return [(b.args[0] * c, t) for c, t in linear_terms(a)]
-    if e.op == "div" and e.args[1].op == "q":
-        return [(c / e.args[1].args[0], t) for c, t in linear_terms(e.args[0])]
+    if e.op in ("mul", "div"):
+        c, k = coef_core(e)
+        if k is None: return [(c, None)]
+        if k.op in ("pi", "var", "add", "sub") and k is not e:
+            return [(c * c2, t) for c2, t in linear_terms(k)]
+        return [(c, k)]
     return [(Fraction(1), e)]
 
 
